@@ -113,7 +113,8 @@ RStep(m, e) ==
     [] e.e = "CbB" -> CbBegin(m, e)
     [] e.e = "Acc" -> AccAll(m, e.t, e.a, 1)
     [] e.e = "Tls" -> IF e.op = "init" THEN [m EXCEPT !.tlsInit[e.t] = @ + 1]
-                      ELSE Chk([m EXCEPT !.tlsDeinit[e.t] = @ + 1], TRUE, m.tlsDeinit[e.t] < m.tlsInit[e.t], "C18:tls-unpaired")
+                      ELSE Chk(Chk([m EXCEPT !.tlsDeinit[e.t] = @ + 1], TRUE, m.tlsDeinit[e.t] < m.tlsInit[e.t], "C18:tls-unpaired"),
+                               TRUE, e.ok = 1, "C18:tls-state")
     [] e.e = "Flags" -> Chk(m, TRUE, e.nb = 1 /\ e.ce = 1, "C18:flags")
     [] e.e = "End" -> EndStep(m, e)
     [] OTHER -> m
